@@ -53,15 +53,23 @@ def GroupZ.single (z : ZFld K) : GroupZ K := { fields := [z], extent := z.fld.ex
 def mergeGroupsZ (gm gk : GroupZ K) : GroupZ K :=
   { fields := gm.fields ++ gk.fields, extent := boundaryL ((gm.fields ++ gk.fields).map fun z => z.fld.extent) }
 
-/-- `lentil.field._disjoint` on flagged groups (the pair search only reads the cached extents) -/
+/-- `lentil.field._disjoint` on flagged groups (the pair search only reads the cached extents); the merge step follows the
+recognised constants `Gen.disjointStep`, as in `Lentil.disjoint` -/
 def disjointZ : Nat → List (GroupZ K) → List (GroupZ K)
   | 0, gs => gs
   | fuel + 1, gs =>
     match firstPair (gs.map GroupZ.toG) with
     | none => gs
     | some (m, k) =>
-      match gs[m]?, gs[k]? with
-      | some gm, some gk => disjointZ fuel ((gs.set m (mergeGroupsZ gm gk)).eraseIdx k)
+      let st := Gen.disjointStep
+      let ix := fun (c : Int) => if c = 0 then m else k
+      match gs[ix st.1]?, gs[ix st.2.1]? with
+      | some gkeep, some gsrc =>
+        let gs1 := gs.set (ix st.1) { fields := gkeep.fields ++ gsrc.fields, extent := gkeep.extent }
+        let gs2 := match gs1[ix st.2.2.1]? with
+          | some gr => gs1.set (ix st.2.2.1) { gr with extent := boundaryL (gr.fields.map fun (z : ZFld K) => z.fld.extent) }
+          | none => gs1
+        disjointZ fuel (gs2.eraseIdx (ix st.2.2.2))
       | _, _ => gs
 
 /-- `_merge(f['field']) if len(f['field']) > 1 else f['field'][0]`; the test is the generated `Gen.reduceMerges` -/
